@@ -13,11 +13,13 @@ Definition ag (n : N) : aggsel :=
   match n with
   | 0 => ASNil | 1 => ASDefault | 2 => ASDrop | 3 => ASSum | 4 => ASLast | 5 => ASHist | _ => ASExpo
   end.
-Definition mkview (cn : bytes) (ck : N) (cu mn md mu : bytes) (a : N) (f : option (list bytes)) : view :=
-  {| vc_name := cn; vc_kind := if ck =? 0 then None else Some (ik ck); vc_unit := cu;
+Definition mkview (cn cd : bytes) (ck : N) (cu csn csv csu mn md mu : bytes) (a : N) (f : option (list bytes)) : view :=
+  {| vc_name := cn; vc_desc := cd; vc_kind := if ck =? 0 then None else Some (ik ck); vc_unit := cu;
+     vc_sname := csn; vc_sver := csv; vc_surl := csu;
      vm_name := mn; vm_desc := md; vm_unit := mu; vm_agg := ag a; vm_filter := f |}.
-Definition mkinst (n d u : bytes) (k : N) (f : bool) : inst :=
-  {| i_name := n; i_desc := d; i_unit := u; i_kind := ik k; i_float := f |}.
+Definition mkinst (n d u : bytes) (k : N) (f : bool) (sn sv su : bytes) : inst :=
+  {| i_name := n; i_desc := d; i_unit := u; i_kind := ik k; i_float := f;
+     i_sname := sn; i_sver := sv; i_surl := su |}.
 
 (** History events refer to a pool of attribute sets by index. *)
 Inductive cev := M (i a : N) (v : Z) | C.
@@ -33,36 +35,37 @@ Definition events_of (pool : list aset) (h : list cev) : list event :=
     (metrics as (name, tag, points), points sorted by the harness). *)
 Inductive case :=
 | CScen (L tmask : N) (vs : list view) (is : list inst) (pool : list aset) (h : list cev)
-        (obs : list (list metric)).
+        (obs : list (list metric))
+(** Concurrent recording: limit, stream shape (sum collected / histogram / last value), the
+    attribute sets offered by all goroutines (and the sequential prefill), all recorded values,
+    and the points of the one collection that followed. *)
+| CConc (L : N) (sums counts lastv : bool) (offered : list aset) (vals : list Z) (obs : points).
 
-Definition obs_eqb_gen (relax : bool) (a b : list (list metric)) : bool :=
-  list_eqb (perm_eqb (metric_eqb_gen relax)) a b.
-Definition obs_eqb := obs_eqb_gen false.
+Definition obs_eqb (a b : list (list metric)) : bool := list_eqb (perm_eqb metric_eqb) a b.
 
 Definition flag (b : bool) (code : N) : list N := if b then [] else [code].
 
-(** Known findings (known_findings.d/C12.json):
+(** Known finding (known_findings.d/C12.json):
     1 (F-C12-1): an observable sum reported with delta temporality under a cardinality limit:
        the per-attribute-set changes do not add up to the change of the total although the
        callback forgot no attribute set (a set moved between its own identity and the overflow set).
        Classified only when the observation is exactly the required per-set report and L >= 1.
-    2 (F-C12-2): histogram points whose sum is not collected carry a non-zero Sum (stale memory of a
-       reused ResourceMetrics).  Classified only when the observation equals the required one
-       everywhere except in Sum fields of histogram points whose required Sum is 0. *)
+    (F-C12-2, the stale Sum of no-sum histograms, is fixed in /repo; nothing is excused for it and
+    its scenario stays in the harness corpus.) *)
 Definition check_case (c : case) : list N :=
   match c with
   | CScen L tmask vs is pool h obs =>
       let ev := events_of pool h in
       let m := model L tmask vs is ev in
       let runs := stream_runs L tmask vs is ev in     (* the required reports, computed once *)
-      let stale := negb (obs_eqb m obs) && obs_eqb_gen true m obs in
-      (if obs_eqb m obs then [] else if stale then [V_KNOWN 2] else [V_MISMATCH]) ++
+      flag (obs_eqb m obs) V_MISMATCH ++
       (if runs_ok false runs ev obs && obs_at_most_b L obs then
          if runs_presum_ok runs then []
          else if 1 <=? L then [V_KNOWN 1] else [V_SPECFAIL]
-       else if stale && runs_ok true runs ev obs && obs_at_most_b L obs then []
        else [V_SPECFAIL]) ++
       flag (runs_ok false runs ev m && obs_at_most_b L m) V_MODELSPEC
+  | CConc L sums counts lastv offered vals obs =>
+      flag (order_free_b L sums counts lastv offered vals obs) V_SPECFAIL
   end.
 
 Definition run (cs : list case) : list (N * N) := index_from 0 check_case cs.
